@@ -22,7 +22,7 @@ import (
 // counted. The order clause is decided for every LCP interval against the
 // interval that encloses it. Inputs of Segments are a suffix array verified
 // by the linear checker and the harness' own Kasai table.
-func checkSegmentsBig(t []byte, minLen, maxLen int, r *rand.Rand, st *core.Stats) (class, msg string) {
+func checkSegmentsBig(t []byte, minLen, maxLen int, libLCP bool, r *rand.Rand, st *core.Stats) (class, msg string) {
 	n := len(t)
 	sa := make([]int32, n)
 	if pv := call(func() { suffix.Sort(t, sa) }); pv != nil {
@@ -44,6 +44,19 @@ func checkSegmentsBig(t []byte, minLen, maxLen int, r *rand.Rand, st *core.Stats
 	}
 	sa2 := append([]int32(nil), sa...)
 	lcp2 := append([]int32(nil), lcp...)
+	if libLCP {
+		// the pipeline as the optimizing parser runs it: the LCP table comes
+		// from suffix.LCP (called without the inverse); the groups are still
+		// judged against the harness' own table
+		for i := range lcp2 {
+			lcp2[i] = -9
+		}
+		if pv := call(func() { suffix.LCP(t, sa2, nil, lcp2) }); pv != nil {
+			return "pipeline-panic", fmt.Sprintf("suffix.LCP panics on %d bytes: %v", n, pv)
+		}
+		st.Inc("big_texts_with_the_librarys_lcp_table")
+	}
+	lcpIn := append([]int32(nil), lcp2...)
 	type cbRec struct {
 		m   int
 		seg []int32
@@ -62,8 +75,8 @@ func checkSegmentsBig(t []byte, minLen, maxLen int, r *rand.Rand, st *core.Stats
 	}); pv != nil {
 		return "segments-panic", fmt.Sprintf("Segments(minLen=%d,maxLen=%d) on %d bytes panics: %v", minLen, maxLen, n, pv)
 	}
-	for i := range lcp {
-		if lcp2[i] != lcp[i] {
+	for i := range lcpIn {
+		if lcp2[i] != lcpIn[i] {
 			return "lcp-modified", fmt.Sprintf("Segments modified lcp[%d]", i)
 		}
 	}
